@@ -20,11 +20,11 @@ func init() {
 	core.Register(&core.Prop{
 		ID:    "C03",
 		Level: "exploration",
-		Rule: "case = one mapping (kind x alpha from grid or log-uniform in [1e-6,0.99] x offset regime {default, fractional, +-1e4..1e6, +-1e8..1.5e9}, built from alpha or from (gamma, offset) as decoders do) probed at ~1500 values: computed bin lower bounds +-{0..8,16,64,256,1024,4096} ulps for bins across the whole indexable range, " +
+		Rule: "case = one mapping (kind x alpha from grid or log-uniform in [1e-6,0.99] x offset regime {default, fractional, +-1e4..1e6, +-1e8..1.5e9}, built from alpha or from (gamma, offset) as decoders do; one case in five uses round parameters: gamma a power/root of two or 1+2^-k with integer, half-integer or 1/log2(gamma) offsets, so that bin bounds fall exactly on binade boundaries) probed at ~1500 values: computed bin lower bounds +-{0..8,16,64,256,1024,4096} ulps for bins across the whole indexable range, " +
 			"binade boundaries 2^e +-k ulps, both range ends and neighbours; probes visited in increasing order. Oracle: |Value(Index v)-v| <= (alpha+64u)v; Index non-decreasing; LowerBound(i)(1-64u) <= v <= LowerBound(i+1)(1+64u); index within int32; |RelativeAccuracy-alpha| <= 2^-50; Min<Max. " +
 			"Non-trivial = >=1 probe within 8 ulps of a bin edge, a binade boundary and a range end; distinct = hash of (mapping, probes).",
-		Cases:     core.Scale(6000, 200000),
-		Mandatory: []string{"oracle.probes", "probe.edge", "probe.binade", "probe.range_end", "oracle.monotone_adjacent_floats", "mapping.from_gamma_offset", "mapping.offset_regime_3"},
+		Cases:     core.Scale(80000, 2000000),
+		Mandatory: []string{"oracle.probes", "probe.edge", "probe.binade", "probe.range_end", "oracle.monotone_adjacent_floats", "mapping.from_gamma_offset", "mapping.offset_regime_3", "mapping.round_gamma_and_offset"},
 		Assumptions: []string{
 			"slack 64*u(v), u(v) = 2^-52 (1 + |ln v| + (|Index v| + |offset|) * 2 atanh(alpha)): a few ulps in the index/log domain, calibrated at <= 6u on the unchanged tree",
 			"LowerBound(i+1) is only required while bin i+1 is itself indexable",
@@ -36,7 +36,7 @@ func init() {
 		Level: "exploration",
 		Rule: "case = one mapping of the C03 grid (incl. non-default offsets) plus a second one: binary Encode->Decode, ToProto->Marshal->Unmarshal->FromProto and EncodeProto->Unmarshal->FromProto must give mappings that are Equals both ways and agree bitwise on Index (300 probes), Value, LowerBound, RelativeAccuracy, Min/MaxIndexableValue; " +
 			"mapping from alpha Equals mapping from its (gamma, offset); Equals reflexive and symmetric on the pair; different kinds never equal; same kind with alpha >= 0.1% apart (or offsets apart) never equal. Non-trivial = non-default offset or pair of same kind with close parameters; distinct = hash of both mappings.",
-		Cases:     core.Scale(6000, 150000),
+		Cases:     core.Scale(120000, 3000000),
 		Mandatory: []string{"oracle.binary_roundtrips", "oracle.proto_roundtrips", "oracle.stream_proto_roundtrips", "oracle.inequalities.kind", "oracle.inequalities.alpha", "oracle.inequalities.offset", "oracle.probe_agreements"},
 		Run:       runC19,
 	})
@@ -45,7 +45,7 @@ func init() {
 		Level: "exploration",
 		Rule: "case = interleaved history of Add, queries and Merge on dataset.Dataset (duplicates, negatives, unsorted arrival, additions after queries, merges of two datasets), reference = the harness's own sorted copy; Lower/UpperQuantile must equal the order statistic at floor/ceil of q(n-1) " +
 			"(rank accepted both as the float product and as the exact product), Quantile == lower, NaN when empty or q outside [0,1], Min/Max/Count exact, Sum within the compensated-sum bound, Merge == adding all values. Non-trivial = history with an addition after a query and a merge; distinct = hash of the history.",
-		Cases:       core.Scale(6000, 150000),
+		Cases:       core.Scale(120000, 3000000),
 		Mandatory:   []string{"oracle.quantile_checks", "event.add_after_query", "event.merge", "oracle.nan_checks", "oracle.sum_checks"},
 		Assumptions: []string{"q = NaN is outside the stated domain and not sent"},
 		Run:         runC20,
@@ -58,8 +58,13 @@ func runC03(c *core.Ctx) {
 	r := c.R
 	// mapping: spread offset regimes evenly
 	var m *gen.Map
-	regime := c.Index % 4
+	regime := c.Index % 5
 	fromGamma := false
+	if regime == 4 {
+		m = gen.RoundMap(r, r.Intn(3))
+		fromGamma = true
+		c.Count("mapping.round_gamma_and_offset", 1)
+	}
 	for m == nil {
 		kind := r.Intn(3)
 		alpha := gen.RandAlpha(r)
